@@ -237,6 +237,13 @@ Section WF.
       wf_cmd up c && (match cs' with [] => true | _ => negb (cmd_greedy c) end) && wf_stream up cs'
     end.
 
+  (* some payload that extends to the end of the message is followed by another command *)
+  Fixpoint greedy_not_last (cs : list (N * option P)) : bool :=
+    match cs with
+    | [] => false
+    | c :: cs' => (match cs' with [] => false | _ => cmd_greedy c end) || greedy_not_last cs'
+    end.
+
   Definition spec_cmd_bytes (c : N * option P) : list N :=
     fst c :: match snd c with Some p => spec_bytes (spec p) | None => [] end.
   Definition spec_stream_bytes (cs : list (N * option P)) : list N :=
@@ -264,6 +271,8 @@ Module FRW.
     match p with FragCmds.DataFragment _ _ _ => true | _ => false end.
   Definition wf_cmd := wf_cmd FR.in_widthb FragCmds.cid_of FragCmds.uplink_of has_payload.
   Definition wf_stream := wf_stream FR.in_widthb FragCmds.cid_of FragCmds.uplink_of has_payload greedy.
+  (* known finding C18-5: a DataFragment that is not the last command of the payload *)
+  Definition data_fragment_not_last : list (N * option FragCmds.payload) -> bool := greedy_not_last greedy.
   Definition stream_bytes := spec_stream_bytes FR.spec.
 End FRW.
 Module FWW.
